@@ -14,24 +14,30 @@
 (*   fam = "cs" : cs is a sequence of atomic constraints over the untyped variables     *)
 (*        x0..x(NV-1) (x_i x_j, x_i = x_j, x_i = [x_j], x_i = %z. x_j, x_i : bool,      *)
 (*        x_i : nat, and annotated occurrences), cur their conjunction, an un-annotated *)
-(*        skeleton.  All sequences up to length MaxAtoms in canonical variable order:   *)
+(*        skeleton.  All sequences up to length MaxAtoms in canonical variable order    *)
+(*        (atoms after the second restricted to LongKinds):                             *)
 (*        every order of the unify calls, occurs-check cycles of every length through   *)
 (*        fun and list, one variable used at two types, and solvable ones.              *)
 (* Invariants                                                                           *)
 (*   ContractSane       : an original is a good result of each of its erasures          *)
-(*   ModelMeetsContract : the as-coded algorithm (with FinalOccursCheck mirroring the   *)
-(*                        code) never diverges; what it returns is a GoodResult and     *)
-(*                        satisfies the erasure clause                                  *)
-(* Every state is recorded (Record, listed as an invariant) and written to VECTOR_FILE  *)
-(* by the post-condition: spec -> code vectors for harness/drivers/c08.py.              *)
+(*   ModelTerminates, ModelGoodResult, ModelErasure (= ModelMeetsContract): the         *)
+(*                        algorithm model, with FinalOccursCheck / AnnotVarCheck        *)
+(*                        mirroring the code that is present, never diverges; what it   *)
+(*                        returns is a GoodResult and satisfies the erasure clause      *)
+(* Configurations: *_gen.cfg (input space + ContractSane; every state is recorded by    *)
+(* Record, listed as an invariant, and written to VECTOR_FILE by the post-condition:    *)
+(* spec -> code vectors for harness/drivers/c08.py) and *_model.cfg (Model* invariants).*)
 EXTENDS C08_Contract, FiniteSets, Json, IOUtils, SequencesExt
 
 CONSTANTS MaxSize,           \* size bound of typed terms
           MaxSteps,          \* number of growth steps from a leaf
           NV, MaxAtoms,      \* constraint skeletons: variables and atoms
-          AtomKinds,         \* subset of {"A","E","L","F","P","N","B","M"}
+          AtomKinds,         \* subset of {"A","E","L","F","P","N","B","M"}: kinds of the first two atoms
+          LongKinds,         \* kinds of the atoms after the second
+          Variants,          \* which erasures a typed state stands for: set of <<keep pattern, variables declared>>
           FinalOccursCheck,  \* the implementation checks the final binding for cycles
-          AnnotVarCheck      \* ... unifies annotated occurrences of a variable with its other occurrences
+          AnnotVarCheck,     \* ... unifies annotated occurrences of a variable with its other occurrences
+          WithModel          \* evaluate the algorithm model (the *_model configurations)
 
 \* ---------------------------------------------------------------- signature (declared types, schematic)
 SA == <<"stv","a">>   SB == <<"stv","b">>   SC == <<"stv","c">>
@@ -115,47 +121,65 @@ StepUsed(m, us) == IF Len(us) = 1 THEN Use1(m, us[1]) ELSE Use1(Use1(m, us[1]), 
 UsedAfter(seq, i, m) == IF i > Len(seq) \/ m = Bad THEN m ELSE UsedAfter(seq, i + 1, StepUsed(m, AtomUses(seq[i])))
 Canonical(seq) == UsedAfter(seq, 1, 0) # Bad
 
-\* ---------------------------------------------------------------- the state machine
-VARIABLES fam, cur, cs, steps
-vars == <<fam, cur, cs, steps>>
-Dummy == C("true", BoolT)
-Init == /\ TLCSet(1, <<>>)
-        /\ \/ fam = "typed" /\ cur \in Leaves /\ cs = <<>> /\ steps = 0
-           \/ fam = "cs" /\ cur = Dummy /\ cs = <<>> /\ steps = 0
-GrowTyped(G(_)) == /\ fam = "typed" /\ steps < MaxSteps
-                   /\ \E t \in G(cur) : t # Err /\ Size(t) <= MaxSize /\ cur' = t
-                   /\ steps' = steps + 1 /\ UNCHANGED <<fam, cs>>
-AddAtom == /\ fam = "cs" /\ Len(cs) < MaxAtoms
-           /\ \E a \in Atoms : LET c2 == Append(cs, a) IN Canonical(c2) /\ cs' = c2 /\ cur' = ConjOf(c2, 1)
-           /\ steps' = steps + 1 /\ UNCHANGED fam
-Next == GrowTyped(GrowApp) \/ GrowTyped(GrowBin) \/ GrowTyped(GrowBind) \/ AddAtom
-Spec == Init /\ [][Next]_vars
-
 \* ---------------------------------------------------------------- what a state stands for
+VariantsAll == { <<k, d>> : k \in KeepPatterns, d \in BOOLEAN }
+VariantsQuick == { <<"none", TRUE>>, <<"vars", TRUE>>, <<"cb", TRUE>>, <<"none", FALSE>>, <<"all", FALSE>> }
 NoCtx == [vars |-> <<>>, svars |-> <<>>]
 DeclCtx(t) == [vars |-> SetToSeq({ <<v[2], v[3]>> : v \in { v \in VarOccs(t) : v[1] = "var" } }),
                svars |-> SetToSeq({ <<v[2], v[3]>> : v \in { v \in VarOccs(t) : v[1] = "svar" } })]
 Case(f, keep, decl, skel, ctx, orig) == [fam |-> f, keep |-> keep, declared |-> decl, skel |-> skel, ctx |-> ctx, orig |-> orig]
-Cases == IF fam = "typed"
-         THEN UNION { { Case("typed", k, TRUE, EraseP(cur, k), DeclCtx(cur), cur),
-                        Case("typed", k, FALSE, EraseP(cur, k), NoCtx, cur) } : k \in KeepPatterns }
-         ELSE IF cs = <<>> THEN {} ELSE { Case("cs", "none", FALSE, cur, NoCtx, NoTerm) }
+CasesOf(f, t, c) ==
+  IF f = "typed"
+  THEN { Case("typed", v[1], v[2], EraseP(t, v[1]), IF v[2] THEN DeclCtx(t) ELSE NoCtx, t) : v \in Variants }
+  ELSE IF c = <<>> THEN {} ELSE { Case("cs", "none", FALSE, t, NoCtx, NoTerm) }
+\* names of the contract clauses that the algorithm model fails on a case
+MOut(c) == Outcome(c.skel, c.ctx, Sig, FinalOccursCheck, AnnotVarCheck, TRUE)
+ModelClauses(c) ==
+  LET o == MOut(c) IN
+  (IF o.kind = "diverged" THEN {"Terminates"} ELSE {})
+  \cup (IF o.kind = "term" THEN GoodClauses(c.skel, c.ctx, Sig, o.t) ELSE {})
+  \cup (IF c.fam = "typed" /\ c.declared THEN ErasureClauses(c.skel, o.kind, o.err, o.t, c.orig) ELSE {})
+  \cup (IF o.kind = "own" THEN {"err:" \o o.err} ELSE {"kind:" \o o.kind})        \* (not failures: reachability witnesses)
+ModelFails(f, t, c) == IF WithModel THEN UNION { ModelClauses(x) : x \in CasesOf(f, t, c) } ELSE {}
+
+\* ---------------------------------------------------------------- the state machine
+VARIABLES fam, cur, cs, steps, mc
+vars == <<fam, cur, cs, steps, mc>>
+Dummy == C("true", BoolT)
+Init == /\ TLCSet(1, <<>>)
+        /\ \/ fam = "typed" /\ cur \in Leaves /\ cs = <<>> /\ steps = 0
+           \/ fam = "cs" /\ cur = Dummy /\ cs = <<>> /\ steps = 0
+        /\ mc = ModelFails(fam, cur, cs)
+GrowTyped(G(_)) == /\ fam = "typed" /\ steps < MaxSteps
+                   /\ \E t \in G(cur) : t # Err /\ Size(t) <= MaxSize /\ cur' = t /\ mc' = ModelFails(fam, t, cs)
+                   /\ steps' = steps + 1 /\ UNCHANGED <<fam, cs>>
+AddAtom == /\ fam = "cs" /\ Len(cs) < MaxAtoms
+           /\ \E a \in Atoms : LET c2 == Append(cs, a) IN
+                   (Len(cs) >= 2 => a.k \in LongKinds) /\ Canonical(c2) /\ cs' = c2 /\ cur' = ConjOf(c2, 1) /\ mc' = ModelFails(fam, ConjOf(c2, 1), c2)
+           /\ steps' = steps + 1 /\ UNCHANGED fam
+Next == GrowTyped(GrowApp) \/ GrowTyped(GrowBin) \/ GrowTyped(GrowBind) \/ AddAtom
+Spec == Init /\ [][Next]_vars
+Cases == CasesOf(fam, cur, cs)
 
 \* ---------------------------------------------------------------- properties
 TypedOK == fam = "typed" => Ty(cur) # Err /\ ~HasNone(cur) /\ ConstInst(cur, Sig) /\ OneType(cur)
 ContractSane == fam = "typed" => \A c \in Cases : GoodResult(c.skel, c.ctx, Sig, c.orig) /\ IsErasureOf(c.skel, c.orig)
                                                   /\ (c.declared => ErasureApplies(c.skel, c.ctx, Sig, c.orig))
-ModelClauses(c) ==
-  LET o == Outcome(c.skel, c.ctx, Sig, FinalOccursCheck, AnnotVarCheck, TRUE) IN
-  (IF o.kind = "diverged" THEN {"Terminates"} ELSE {})
-  \cup (IF o.kind = "term" THEN GoodClauses(c.skel, c.ctx, Sig, o.t) ELSE {})
-  \cup (IF c.fam = "typed" /\ c.declared THEN ErasureClauses(c.skel, o.kind, o.err, o.t, c.orig) ELSE {})
-ModelMeetsContract == \A c \in Cases : ModelClauses(c) = {}
+\* mc = the clauses failed by the algorithm model on the cases of the state (computed once, in the action)
+\* the final substitution loop of the algorithm terminates (no cyclic binding is accepted)
+ModelTerminates == "Terminates" \notin mc
+\* what the algorithm returns satisfies the contract
+ModelGoodResult == mc \cap {"Determined", "WellTyped", "SameShape", "KeepAnnot", "KeepDecl", "OneType", "ConstInst", "NoInternal"} = {}
+\* erasures of well-typed terms with declared variables: the original or "under-determined"
+ModelErasure == "ErasureRecovers" \notin mc
+ModelMeetsContract == ModelTerminates /\ ModelGoodResult /\ ModelErasure
 \* recording (always TRUE); with -workers 1 each distinct state is recorded once
 Record == TLCSet(1, TLCGet(1) \o SetToSeq(Cases))
 Post == /\ ndJsonSerialize(IOEnv.VECTOR_FILE, TLCGet(1))
         /\ PrintT(<<"vectors", Len(TLCGet(1))>>)
-\* sanity invariants that are expected to be VIOLATED (reachability of the interesting cases; used by mutants)
-NoTermOutcomeForCs == fam = "cs" => \A c \in Cases : Outcome(c.skel, c.ctx, Sig, FinalOccursCheck, AnnotVarCheck, TRUE).kind # "term"
-NoUnspecified == \A c \in Cases : Outcome(c.skel, c.ctx, Sig, FinalOccursCheck, AnnotVarCheck, TRUE).err # "unspecified"
+\* sanity invariants that are expected to be VIOLATED (reachability of the interesting outcomes)
+NoTermOutcomeForCs == fam = "cs" => "kind:term" \notin mc
+NoUnspecified == "err:unspecified" \notin mc
+NoLoopError == "err:loop" \notin mc
+NoUnifyError == "err:unify" \notin mc
 =============================================================================
